@@ -344,6 +344,16 @@ def c20_5(ctx: Ctx):
     ln = om.methods.get("__len__")
     if ln is not None:
         ctx.check("sum(" in src(ln.node) and "len(subdata)" in src(ln.node), ln, ln.node, "len counts offsets, not elements", "len changed")
+    bl = om.methods.get("__bool__")
+    if bl is not None:
+        rets = [n for n in walk_no_nested(bl.node) if isinstance(n, ast.Return)]
+        t = src(rets[0].value).replace(" ", "") if len(rets) == 1 else "?"
+        ok = t in ("any((subdataforsubdatainself._data.values()))", "len(self)>0", "len(self)!=0", "bool(len(self))")
+        ctx.check(ok, bl, bl.node, "OffsetMapping truthiness agrees with its length (true iff it holds an Offset)",
+                  f"__bool__ returns `{t}`: a mapping whose elements all have empty displacement dicts holds no Offset (len 0) but would be truthy "
+                  "(`if table:` guards in split/join/remove treat it as non-empty)")
+    else:
+        ctx.ok(om.methods["__init__"], None, "OffsetMapping has no __bool__: truthiness falls back to __len__", nontrivial=False)
     bo = repo.cls("_adt.block_ordering.BlockOrdering")
     pi = bo.methods["_primitive_insert"]
     lin = linear(pi.node)
